@@ -23,34 +23,34 @@ type FormatCall struct {
 }
 
 type RespHeaderRow struct {
-	Key      string
-	Field    *types.Var
-	Optional bool
-	Array    bool
-	Formats  []FormatCall
+	Key       string
+	Field     *types.Var
+	Optional  bool
+	Array     bool
+	Formats   []FormatCall
 	FromField bool
-	Pos      token.Pos
+	Pos       token.Pos
 }
 
 type RespWrite struct {
-	TypeName   string
-	Type       *types.Named
-	Decl       *ast.FuncDecl
-	HasCodeParam bool
-	StatusConst  int
-	StatusKind   string // const | field | param
-	ContentType  string
-	Headers      []RespHeaderRow
-	Body         string // json | raw | none
-	BodyType     types.Type
+	TypeName            string
+	Type                *types.Named
+	Decl                *ast.FuncDecl
+	HasCodeParam        bool
+	StatusConst         int
+	StatusKind          string // const | field | param
+	ContentType         string
+	Headers             []RespHeaderRow
+	Body                string // json | raw | none
+	BodyType            types.Type
 	HeadersStructFields []string
-	Undecided    []string
+	Undecided           []string
 }
 
 type RespImpl struct {
-	W      *RespWrite
-	Status string // "200" | "default"
-	Pos    token.Pos
+	W         *RespWrite
+	Status    string // "200" | "default"
+	Pos       token.Pos
 	Undecided []string
 }
 
